@@ -22,7 +22,18 @@ pub trait Math: Sized {
     /// unrecoverable error.  One leapfrog / init_state is exactly one evaluation.
     spec fn evals(&self) -> nat;
     spec fn fatal_evals(&self) -> nat;
+    // ---- (added for unit `chain`, expanded_draw) the vector types of /repo's Math and the trace expansion
+    type Vector;
+    type ExpandedVector;
+    type Err: ErrorLike;
+    /// content of a vector (A-math: vectors are sequences of reals)
+    spec fn vv(v: &Self::Vector) -> Seq<real>;
+    /// the values stored in the trace for a position (the model's `expand`; may consume randomness)
+    fn expand_vector<R: Rng + ?Sized>(&mut self, rng: &mut R, array: &Self::Vector) -> (r: core::result::Result<Self::ExpandedVector, Self::Err>)
+        ensures final(self).dim_spec() == old(self).dim_spec();
 }
+/// marker of the error types that convert into `anyhow::Error` with `?` (std::error::Error + Send + Sync + 'static in /repo)
+pub trait ErrorLike {}
 /// a `&mut math` call that does not evaluate the density
 pub open spec fn no_eval<M: Math>(m0: &M, m1: &M) -> bool { m1.evals() == m0.evals() && m1.fatal_evals() == m0.fatal_evals() }
 /// exactly one density evaluation; if it failed unrecoverably the call returned Err (quantifier-free form of
@@ -43,6 +54,8 @@ pub trait Point<M: Math>: Sized {
     spec fn pview(&self) -> StateView;
     fn initial_energy(&self) -> (r: F) ensures r.r() == self.pview().e0;
     fn energy_error(&self) -> (r: F) ensures r.r() == self.pview().energy - self.pview().e0;
+    /// (added for unit `chain`) the untransformed position of the point
+    fn position(&self) -> (r: &M::Vector) ensures M::vv(r) == self.pview().x;
 }
 
 #[verifier::external_body]
